@@ -4,6 +4,10 @@
 From Coq Require Import List Bool Arith PeanoNat Lia.
 Import ListNotations.
 From PV Require Import Model.MPI.
+Arguments use_lb {T} _ : simpl never.
+Arguments Nat.modulo : simpl never.
+Arguments Nat.ltb : simpl never.
+Arguments Nat.leb : simpl never.
 
 (* ------------------------------------------------------------------------- *)
 (* generic list facts                                                          *)
@@ -78,10 +82,13 @@ Qed.
 Definition d1 (a b : nat) : nat := if Nat.eq_dec a b then 1 else 0.
 Definition cnt (i : nat) (l : list nat) : nat := count_occ Nat.eq_dec l i.
 
+Arguments cnt : simpl never.
+Arguments d1 : simpl never.
+
 Lemma cnt_app : forall i a b, cnt i (a ++ b) = cnt i a + cnt i b.
 Proof. intros. apply count_occ_app. Qed.
 Lemma cnt_cons : forall i x l, cnt i (x :: l) = d1 x i + cnt i l.
-Proof. intros. unfold cnt, d1. simpl. destruct (Nat.eq_dec x i); reflexivity. Qed.
+Proof. intros. unfold cnt, d1. cbn [count_occ]. destruct (Nat.eq_dec x i); reflexivity. Qed.
 Lemma cnt_nil : forall i, cnt i [] = 0.
 Proof. reflexivity. Qed.
 Lemma cnt_pos_In : forall i l, 0 < cnt i l -> In i l.
@@ -126,14 +133,14 @@ Section MPIProofs.
   Definition socc (i : nat) (ws : list worker) : nat := wsum (wocc i) ws.
   Definition wload (ws : list worker) : nat := wsum (fun wk => length (wtok wk)) ws.
 
-  Definition undisp (m : master) (i : nat) : nat := if (m_sent m <=? i) && (i <? n) then 1 else 0.
-  Definition stored (m : master) (i : nat) : nat :=
-    if lb then match nth_error (m_slots m) i with Some (Some _) => 1 | _ => 0 end
-    else if i <? m_recvd m then 1 else 0.
+  Definition undisp (sent i : nat) : nat := if (sent <=? i) && (i <? n) then 1 else 0.
+  Definition stored (slots : list (option R)) (recvd i : nat) : nat :=
+    if lb then match nth_error slots i with Some (Some _) => 1 | _ => 0 end
+    else if i <? recvd then 1 else 0.
 
   (* how many of the five places hold index i *)
   Definition occ (st : state) (i : nat) : nat :=
-    undisp (st_m st) i + socc i (st_w st) + stored (st_m st) i.
+    undisp (m_sent (st_m st)) i + socc i (st_w st) + stored (m_slots (st_m st)) (m_recvd (st_m st)) i.
 
   (* ---- the function a worker will apply ------------------------------------ *)
   Fixpoint eff (cur : nat) (q : list (wmsg T)) : nat :=
@@ -263,16 +270,748 @@ Section MPIProofs.
       + intros Hw. destruct (g =? mf) eqn:E; [|lia]. apply Nat.eqb_eq in E. congruence.
     - intros i. unfold occ, undisp, stored, socc. simpl.
       rewrite wsum_zero_all.
-      + assert (S0 : (if lb then match nth_error (repeat (@None R) n) i with Some (Some _) => 1 | _ => 0 end
-                      else if i <? 0 then 1 else 0) = 0).
-        { destruct lb.
-          - destruct (nth_error (repeat (@None R) n) i) as [[r|]|] eqn:E; auto.
-            exfalso. assert (In (Some r) (repeat (@None R) n)) as HI by (eapply nth_error_In; eauto).
-            apply repeat_spec in HI. discriminate.
-          - reflexivity. }
-        rewrite S0. destruct (i <? n); reflexivity.
+      + assert (S0 : match nth_error (repeat (@None R) n) i with Some (Some _) => 1 | _ => 0 end = 0).
+        { destruct (nth_error (repeat (@None R) n) i) as [[r|]|] eqn:E; auto.
+          exfalso. assert (In (Some r) (repeat (@None R) n)) as HI by (eapply nth_error_In; eauto).
+          apply repeat_spec in HI. discriminate. }
+        rewrite S0. destruct lb; destruct (i <? n); reflexivity.
       + intros wk Hk. unfold wocc. rewrite (idle_wtok mf wk (I wk Hk)). reflexivity.
     - unfold wload. rewrite wsum_zero_all; [reflexivity|].
       intros wk Hk. rewrite (idle_wtok mf wk (I wk Hk)). reflexivity.
   Qed.
+
+  Ltac cntn := repeat (rewrite cnt_app || rewrite cnt_cons || rewrite cnt_nil).
+  Ltac proj := cbn [st_m st_w m_bc m_sent m_recvd m_acc m_slots m_pend m_done w_fun w_st w_in w_out] in *.
+
+  (* ---- how one worker's tokens change ------------------------------------------- *)
+  Definition w_push (wk : worker) (m : wmsg T) : worker :=
+    Wk (w_fun wk) (w_st wk) (w_in wk ++ [m]) (w_out wk).
+
+  Lemma wtok_push_fun : forall wk g', wtok (w_push wk (MFun g')) = wtok wk.
+  Proof.
+    intros. unfold wtok, w_push. proj. rewrite in_tags_app. simpl. rewrite app_nil_r. reflexivity.
+  Qed.
+
+  Lemma wocc_push_task : forall wk tag t i, wocc i (w_push wk (MTask tag t)) = wocc i wk + d1 tag i.
+  Proof.
+    intros. unfold wocc, wtok, w_push. proj. rewrite in_tags_app. simpl.
+    cntn. lia.
+  Qed.
+
+  Lemma wlen_push_task : forall wk tag t, length (wtok (w_push wk (MTask tag t))) = S (length (wtok wk)).
+  Proof.
+    intros. unfold wtok, w_push. proj. rewrite in_tags_app. simpl. rewrite !app_length. simpl. lia.
+  Qed.
+
+  Lemma wtok_recv_fun : forall wk g' q, w_st wk = WWait -> w_in wk = MFun g' :: q ->
+    wtok (Wk g' WWait q (w_out wk)) = wtok wk.
+  Proof. intros wk g' q H1 H2. unfold wtok. proj. rewrite H1, H2. reflexivity. Qed.
+
+  Lemma wocc_recv_task : forall wk tag t q i, w_st wk = WWait -> w_in wk = MTask tag t :: q ->
+    wocc i (Wk (w_fun wk) (WRun tag t) q (w_out wk)) = wocc i wk.
+  Proof.
+    intros wk tag t q i H1 H2. unfold wocc, wtok. proj. rewrite H1, H2. simpl.
+    cntn. lia.
+  Qed.
+
+  Lemma wlen_recv_task : forall wk tag t q, w_st wk = WWait -> w_in wk = MTask tag t :: q ->
+    length (wtok (Wk (w_fun wk) (WRun tag t) q (w_out wk))) = length (wtok wk).
+  Proof.
+    intros wk tag t q H1 H2. unfold wtok. proj. rewrite H1, H2. simpl. rewrite !app_length. simpl. lia.
+  Qed.
+
+  Lemma wocc_send : forall wk tag t r i, w_st wk = WRun tag t ->
+    wocc i (Wk (w_fun wk) WWait (w_in wk) (w_out wk ++ [(tag, r)])) = wocc i wk.
+  Proof.
+    intros wk tag t r i H1. unfold wocc, wtok. proj. rewrite H1, map_app. simpl.
+    cntn. lia.
+  Qed.
+
+  Lemma wlen_send : forall wk tag t r, w_st wk = WRun tag t ->
+    length (wtok (Wk (w_fun wk) WWait (w_in wk) (w_out wk ++ [(tag, r)]))) = length (wtok wk).
+  Proof.
+    intros wk tag t r H1. unfold wtok. proj. rewrite H1, map_app. simpl. rewrite !app_length. simpl. lia.
+  Qed.
+
+  Lemma take_tag_spec : forall tag (out : list (nat * R)) r q, take_tag tag out = Some (r, q) ->
+    In (tag, r) out /\ (forall x, In x q -> In x out) /\ length out = S (length q) /\
+    forall i, cnt i (map fst out) = cnt i (map fst q) + d1 tag i.
+  Proof.
+    induction out as [|[t0 r0] out IH]; intros r q H; simpl in H; [discriminate|].
+    destruct (t0 =? tag) eqn:E.
+    - apply Nat.eqb_eq in E. subst t0. injection H as <- <-. repeat split; auto.
+      + left. reflexivity.
+      + intros x Hx. right. exact Hx.
+      + intros i. simpl. rewrite cnt_cons. lia.
+    - destruct (take_tag tag out) as [[r' q']|] eqn:Q; [|discriminate]. injection H as <- <-.
+      destruct (IH r' q' eq_refl) as (A1 & A2 & A3 & A4). repeat split.
+      + right. exact A1.
+      + intros x [<-|Hx]; [left; reflexivity|right; apply A2; exact Hx].
+      + simpl. lia.
+      + intros i. simpl. rewrite !cnt_cons, A4. lia.
+  Qed.
+
+  Lemma take_tag_some : forall tag (out : list (nat * R)) r, In (tag, r) out ->
+    exists r' q, take_tag tag out = Some (r', q).
+  Proof.
+    induction out as [|[t0 r0] out IH]; intros r H; [contradiction|]. simpl.
+    destruct (t0 =? tag) eqn:E; [eauto|].
+    destruct H as [H|H]; [injection H as -> _; rewrite Nat.eqb_refl in E; discriminate|].
+    destruct (IH r H) as (r' & q & Q). rewrite Q. eauto.
+  Qed.
+
+  Lemma wocc_take : forall wk q tag i, (forall j, cnt j (map fst (w_out wk)) = cnt j (map fst q) + d1 tag j) ->
+    wocc i wk = wocc i (Wk (w_fun wk) (w_st wk) (w_in wk) q) + d1 tag i.
+  Proof.
+    intros wk q tag i H. unfold wocc, wtok. proj. rewrite !cnt_app, H. lia.
+  Qed.
+
+  Lemma wlen_take : forall wk q, length (w_out wk) = S (length q) ->
+    length (wtok wk) = S (length (wtok (Wk (w_fun wk) (w_st wk) (w_in wk) q))).
+  Proof.
+    intros wk q H. unfold wtok. proj. rewrite !app_length, !map_length, H. lia.
+  Qed.
+
+  (* ---- how one worker's wk_ok is kept ------------------------------------------- *)
+  Lemma wk_ok_mono : forall bc bc' w wk, wk_ok bc w wk -> (w < bc' -> w < bc) -> wk_ok bc' w wk.
+  Proof. intros bc bc' w wk [A B C D E] H. constructor; auto. Qed.
+
+  Lemma wk_ok_push_fun : forall bc bc' w wk, wk_ok bc w wk -> wk_ok bc' w (w_push wk (MFun g)).
+  Proof.
+    intros bc bc' w wk [A B C D E]. constructor; unfold w_push; proj; auto.
+    - intros tag t H. apply in_app_or in H. destruct H as [H|[H|[]]]; [auto|discriminate].
+    - apply fun_ok_app; [exact D|exact I].
+    - intros _. rewrite eff_app. reflexivity.
+  Qed.
+
+  Lemma wk_ok_push_task : forall bc w wk tag t, wk_ok bc w wk -> w < bc ->
+    nth_error tasks tag = Some t -> tag_ok w tag -> wk_ok bc w (w_push wk (MTask tag t)).
+  Proof.
+    intros bc w wk tag t [A B C D E] Hw Ht Hk. constructor; unfold w_push; proj; auto.
+    - intros tg t' H. apply in_app_or in H. destruct H as [H|[H|[]]]; [auto|].
+      injection H as <- <-. auto.
+    - apply fun_ok_app; [exact D|]. simpl. auto.
+    - intros _. rewrite eff_app. simpl. auto.
+  Qed.
+
+  Lemma wk_ok_recv_fun : forall bc w wk g' q, wk_ok bc w wk -> w_st wk = WWait -> w_in wk = MFun g' :: q ->
+    wk_ok bc w (Wk g' WWait q (w_out wk)).
+  Proof.
+    intros bc w wk g' q [A B C D E] H1 H2. rewrite H2 in *. constructor; proj; auto.
+    - intros tag t H. apply A. right. exact H.
+    - discriminate.
+  Qed.
+
+  Lemma wk_ok_recv_task : forall bc w wk tag t q, wk_ok bc w wk -> w_st wk = WWait -> w_in wk = MTask tag t :: q ->
+    wk_ok bc w (Wk (w_fun wk) (WRun tag t) q (w_out wk)).
+  Proof.
+    intros bc w wk tag t q [A B C D E] H1 H2. rewrite H2 in *. simpl in D, E. destruct D as [D1 D2].
+    constructor; proj; auto.
+    - intros tg t' H. apply A. right. exact H.
+    - intros tg t' H. injection H as <- <-. destruct (A tag t (or_introl eq_refl)). auto.
+  Qed.
+
+  Lemma wk_ok_send : forall bc w wk tag t, wk_ok bc w wk -> w_st wk = WRun tag t ->
+    wk_ok bc w (Wk (w_fun wk) WWait (w_in wk) (w_out wk ++ [(tag, fn (w_fun wk) t)])).
+  Proof.
+    intros bc w wk tag t [A B C D E] H1. destruct (B tag t H1) as (B1 & B2 & B3).
+    constructor; proj; auto.
+    - discriminate.
+    - intros tg r H. apply in_app_or in H. destruct H as [H|[H|[]]]; [auto|].
+      injection H as <- <-. rewrite B3. split; [eauto|exact B2].
+  Qed.
+
+  Lemma wk_ok_out : forall bc w wk q, wk_ok bc w wk -> (forall x, In x q -> In x (w_out wk)) ->
+    wk_ok bc w (Wk (w_fun wk) (w_st wk) (w_in wk) q).
+  Proof. intros bc w wk q [A B C D E] H. constructor; proj; auto. Qed.
+
+  Lemma all_upd : forall (P : nat -> worker -> Prop) ws w wk',
+    (forall k x, k <> w -> nth_error ws k = Some x -> P k x) -> (w < length ws -> P w wk') ->
+    forall k x, nth_error (upd ws w wk') k = Some x -> P k x.
+  Proof.
+    intros P ws w wk' H1 H2 k x Hk. destruct (Nat.eq_dec k w) as [->|N].
+    - assert (L : w < length ws) by (rewrite <- (upd_length _ ws w wk'); eapply nth_error_lt; eauto).
+      rewrite nth_error_upd_eq in Hk by exact L. injection Hk as <-. auto.
+    - rewrite nth_error_upd_neq in Hk by exact N. eauto.
+  Qed.
+
+  Lemma socc_upd : forall ws w wk wk' i, nth_error ws w = Some wk ->
+    socc i (upd ws w wk') + wocc i wk = socc i ws + wocc i wk'.
+  Proof. intros. unfold socc. apply wsum_upd. assumption. Qed.
+  Lemma wload_upd : forall ws w wk wk', nth_error ws w = Some wk ->
+    wload (upd ws w wk') + length (wtok wk) = wload ws + length (wtok wk').
+  Proof. intros. unfold wload. apply (wsum_upd _ (fun wk => length (wtok wk))). assumption. Qed.
+
+  (* ---- deltas of the master-side counters --------------------------------------- *)
+  Lemma undisp_S : forall sent i, sent < n -> undisp sent i = undisp (S sent) i + d1 sent i.
+  Proof.
+    intros sent i H. unfold undisp, d1.
+    destruct (Nat.eq_dec sent i) as [E0|E0]; destruct (Nat.leb_spec sent i); destruct (Nat.leb_spec (S sent) i);
+      destruct (Nat.ltb_spec i n); simpl; lia.
+  Qed.
+
+  Lemma stored_static_S : forall slots recvd i, lb = false ->
+    stored slots (S recvd) i = stored slots recvd i + d1 recvd i.
+  Proof.
+    intros slots recvd i L. unfold stored, d1. rewrite L.
+    destruct (Nat.eq_dec recvd i) as [E0|E0]; destruct (Nat.ltb_spec i (S recvd)); destruct (Nat.ltb_spec i recvd); lia.
+  Qed.
+
+  Lemma stored_lb_upd : forall slots recvd recvd' tag r i, lb = true -> tag < length slots ->
+    stored slots recvd tag = 0 ->
+    stored (upd slots tag (Some r)) recvd' i = stored slots recvd i + d1 tag i.
+  Proof.
+    intros slots recvd recvd' tag r i L Ht H0. unfold stored, d1 in *. rewrite L in *.
+    destruct (Nat.eq_dec tag i) as [<-|N].
+    - rewrite nth_error_upd_eq by exact Ht. destruct (nth_error slots tag) as [[x|]|]; [discriminate|reflexivity|reflexivity].
+    - rewrite nth_error_upd_neq by congruence. lia.
+  Qed.
+
+  (* ---- every step preserves the invariant -------------------------------------- *)
+  Lemma inv_worker_update : forall m ws w wk wk',
+    Inv (St m ws) -> nth_error ws w = Some wk -> wk_ok (m_bc m) w wk' ->
+    (forall i, wocc i wk' = wocc i wk) -> length (wtok wk') = length (wtok wk) ->
+    Inv (St m (upd ws w wk')).
+  Proof.
+    intros m ws w wk wk' [L M WK O Ld] Hw OK Hocc Hlen. proj. constructor; proj.
+    - rewrite upd_length. exact L.
+    - exact M.
+    - apply all_upd; auto.
+    - intros i. specialize (O i). unfold occ in *. proj.
+      pose proof (socc_upd ws w wk wk' i Hw) as S1. rewrite Hocc in S1. lia.
+    - pose proof (wload_upd ws w wk wk' Hw) as S1. rewrite Hlen in S1. lia.
+  Qed.
+
+  Lemma inv_wrecv : forall st w k st', Inv st -> step st (EWRecv w k) = Some st' -> Inv st'.
+  Proof.
+    intros [m ws] w k st' I H. unfold MPI.step in H. proj.
+    destruct (nth_error ws w) as [wk|] eqn:Hw; [|discriminate].
+    pose proof (inv_w _ I w wk Hw) as OK. proj.
+    destruct (w_st wk) as [|rtag rt] eqn:Hs; destruct (w_in wk) as [|[g'|tag t] q] eqn:Hi; destruct k as [tag'|];
+      try discriminate.
+    - injection H as <-.
+      apply (inv_worker_update m ws w wk); auto.
+      + apply wk_ok_recv_fun; auto.
+      + intros i. unfold wocc. rewrite (wtok_recv_fun wk g' q); auto.
+      + rewrite (wtok_recv_fun wk g' q); auto.
+    - destruct (tag =? tag') eqn:E; [|discriminate]. injection H as <-.
+      apply (inv_worker_update m ws w wk); auto.
+      + apply wk_ok_recv_task; auto.
+      + intros i. apply wocc_recv_task; auto.
+      + apply wlen_recv_task; auto.
+  Qed.
+
+  Lemma inv_wsend : forall st w tag st', Inv st -> step st (EWSend w tag) = Some st' -> Inv st'.
+  Proof.
+    intros [m ws] w tag st' I H. unfold MPI.step in H. proj.
+    destruct (nth_error ws w) as [wk|] eqn:Hw; [|discriminate].
+    pose proof (inv_w _ I w wk Hw) as OK. proj.
+    destruct (w_st wk) as [|tg t] eqn:Hs; [discriminate|].
+    destruct (tg =? tag) eqn:E; [|discriminate]. injection H as <-.
+    apply (inv_worker_update m ws w wk); auto.
+    - apply wk_ok_send; auto.
+    - intros i. apply (wocc_send wk tg t); auto.
+    - apply (wlen_send wk tg t); auto.
+  Qed.
+
+  Lemma inv_sendfun : forall st d st', Inv st -> step st (EMSendFun d) = Some st' -> Inv st'.
+  Proof.
+    intros [[bc sent recvd acc slots pend done] ws] d st' I H. unfold MPI.step in H. proj.
+    destruct (negb done && (bc <? W) && (d =? bc)) eqn:C; [|discriminate]. bools. subst d.
+    unfold push_in in H. destruct (nth_error ws bc) as [wk|] eqn:Hw; [|discriminate]. injection H as <-.
+    change (Wk (w_fun wk) (w_st wk) (w_in wk ++ [MFun g]) (w_out wk)) with (w_push wk (MFun g)).
+    destruct I as [L M WK O Ld]. proj.
+    assert (TK : wtok (w_push wk (MFun g)) = wtok wk) by apply wtok_push_fun.
+    constructor; proj.
+    - rewrite upd_length. exact L.
+    - destruct M as [M1 M2 M3 M4 M5 M6]; proj. constructor; proj; auto; try lia.
+      intros D. rewrite D in *. discriminate.
+    - apply all_upd.
+      + intros k x Nk Hk. apply (wk_ok_mono bc (S bc)); [apply WK; exact Hk|lia].
+      + intros _. apply (wk_ok_push_fun bc). apply WK. exact Hw.
+    - intros i. specialize (O i). unfold occ in *. proj.
+      pose proof (socc_upd ws bc wk (w_push wk (MFun g)) i Hw) as S1.
+      unfold wocc in S1. rewrite TK in S1. lia.
+    - pose proof (wload_upd ws bc wk (w_push wk (MFun g)) Hw) as S1. rewrite TK in S1. lia.
+  Qed.
+
+  Lemma inv_send : forall st d tag st', Inv st -> step st (EMSend d tag) = Some st' -> Inv st'.
+  Proof.
+    intros [[bc sent recvd acc slots pend done] ws] d tag st' I H. unfold MPI.step in H. proj.
+    match type of H with (if ?c then _ else _) = _ => destruct c eqn:C; [|discriminate] end.
+    apply andb_prop in C. destruct C as [C HB]. bools. subst tag bc.
+    destruct (nth_error tasks sent) as [t|] eqn:Ht; [|discriminate].
+    unfold push_in in H. destruct (nth_error ws d) as [wk|] eqn:Hw; [|discriminate]. injection H as <-.
+    change (Wk (w_fun wk) (w_st wk) (w_in wk ++ [MTask sent t]) (w_out wk)) with (w_push wk (MTask sent t)).
+    destruct I as [L M WK O Ld]. proj.
+    assert (Hd : d < W) by (rewrite <- L; eapply nth_error_lt; eauto).
+    constructor; proj.
+    - rewrite upd_length. exact L.
+    - destruct M as [M1 M2 M3 M4 M5 M6]; proj. constructor; proj; auto; try lia.
+      + intros LB. destruct (M4 LB) as (A1 & A2 & A3). repeat split; auto; intros; apply A2; lia.
+      + intros LB. destruct (M5 LB) as (A1 & A2 & A3 & A4 & A5). rewrite LB in HB.
+        split; [exact A1|]. split; [exact A2|]. split; [|split].
+        * intros. split; [apply A3; lia|reflexivity].
+        * intros w C. discriminate.
+        * intros _ B1 B2. destruct pend as [w0|].
+          -- destruct (A4 w0 eq_refl) as (_ & _ & _ & E). lia.
+          -- bools. destruct (A3 ltac:(lia)). lia.
+      + intros D. rewrite D in *. discriminate.
+    - apply all_upd.
+      + intros k x Nk Hk. apply WK. exact Hk.
+      + intros _. apply wk_ok_push_task; auto.
+        intros LB. rewrite LB in HB. bools. subst d. reflexivity.
+    - intros i. specialize (O i). unfold occ in *. proj.
+      pose proof (socc_upd ws d wk (w_push wk (MTask sent t)) i Hw) as S1.
+      rewrite wocc_push_task in S1. pose proof (undisp_S sent i ltac:(lia)) as U. lia.
+    - pose proof (wload_upd ws d wk (w_push wk (MTask sent t)) Hw) as S1.
+      rewrite wlen_push_task in S1. lia.
+  Qed.
+
+  Lemma inv_recv : forall st src tag st', Inv st -> step st (EMRecv src tag) = Some st' -> Inv st'.
+  Proof.
+    intros [[bc sent recvd acc slots pend done] ws] src tag st' I H. unfold MPI.step in H. proj.
+    destruct (negb done && (bc =? W) && (recvd <? n)) eqn:C; [|discriminate]. bools. subst bc.
+    destruct (nth_error ws src) as [wk|] eqn:Hw; [|discriminate].
+    destruct I as [L M WK O Ld]. proj.
+    assert (Hd : src < W) by (rewrite <- L; eapply nth_error_lt; eauto).
+    pose proof (WK src wk Hw) as OK.
+    destruct M as [M1 M2 M3 M4 M5 M6]; proj.
+    destruct lb eqn:LB.
+    - (* load-balanced *)
+      destruct ((W <=? sent) && is_none pend) eqn:C2; [|discriminate]. bools.
+      destruct pend as [p|]; [discriminate|].
+      destruct (w_out wk) as [|[tg r] q] eqn:Ho; [discriminate|].
+      destruct ((tg =? tag) && (tag <? length slots)) eqn:C3; [|discriminate]. bools. subst tg.
+      injection H as <-.
+      destruct (M5 eq_refl) as (A1 & A2 & A3 & A4 & A5).
+      assert (HIn : In (tag, r) (w_out wk)) by (rewrite Ho; left; reflexivity).
+      destruct (ok_out _ _ _ OK tag r HIn) as [(t & Ht & Hr) _].
+      assert (CN : forall j, cnt j (map fst (w_out wk)) = cnt j (map fst q) + d1 tag j).
+      { intros j. rewrite Ho. simpl. rewrite cnt_cons. lia. }
+      assert (ST0 : stored slots recvd tag = 0).
+      { pose proof (O tag) as Ot. unfold occ in Ot. proj.
+        pose proof (wsum_ge _ (wocc tag) ws src wk Hw) as G1. fold (socc tag ws) in G1.
+        pose proof (wocc_take wk q tag tag CN) as G2.
+        assert (d1 tag tag = 1) by (unfold d1; destruct (Nat.eq_dec tag tag); congruence).
+        destruct (tag <? n); lia. }
+      constructor; proj.
+      + rewrite upd_length. exact L.
+      + constructor; proj; auto; try lia.
+        * intros C. congruence.
+        * intros _. split; [rewrite upd_length; exact A1|]. split; [|split; [|split]].
+          -- intros i r0 Hi. destruct (Nat.eq_dec i tag) as [->|N].
+             ++ rewrite nth_error_upd_eq in Hi by assumption. injection Hi as <-. eauto.
+             ++ rewrite nth_error_upd_neq in Hi by exact N. eauto.
+          -- intros. lia.
+          -- intros w Hp. destruct (Nat.ltb_spec sent n); [|discriminate]. injection Hp as <-.
+             pose proof (A5 eq_refl ltac:(assumption) ltac:(assumption)). repeat split; auto; lia.
+          -- intros Hp B1 B2. destruct (Nat.ltb_spec sent n); [discriminate|lia].
+        * intros D. rewrite D in *. discriminate.
+      + apply all_upd.
+        * intros k x Nk Hk. apply WK. exact Hk.
+        * intros _. apply wk_ok_out; auto. intros x Hx. rewrite Ho. right. exact Hx.
+      + intros i. specialize (O i). unfold occ in *. proj.
+        pose proof (socc_upd ws src wk (Wk (w_fun wk) (w_st wk) (w_in wk) q) i Hw) as S1.
+        pose proof (wocc_take wk q tag i CN) as S2.
+        pose proof (stored_lb_upd slots recvd (S recvd) tag r i LB ltac:(assumption) ST0) as S3.
+        lia.
+      + pose proof (wload_upd ws src wk (Wk (w_fun wk) (w_st wk) (w_in wk) q) Hw) as S1.
+        pose proof (wlen_take wk q ltac:(rewrite Ho; reflexivity)) as S2. lia.
+    - (* static *)
+      destruct ((sent =? n) && (tag =? recvd) && (src =? recvd mod W)) eqn:C2; [|discriminate]. bools.
+      subst tag src.
+      destruct (take_tag recvd (w_out wk)) as [[r q]|] eqn:TT; [|discriminate]. injection H as <-.
+      destruct (take_tag_spec _ _ _ _ TT) as (B1 & B2 & B3 & B4).
+      destruct (ok_out _ _ _ OK recvd r B1) as [(t & Ht & Hr) _].
+      destruct (M4 eq_refl) as (A1 & A2 & A3).
+      constructor; proj.
+      + rewrite upd_length. exact L.
+      + constructor; proj; auto; try lia.
+        * intros _. split; [exact A1|]. split; [intros; lia|].
+          rewrite (firstn_S_nth _ _ _ _ Ht), map_app, <- A3, Hr. reflexivity.
+        * intros C. congruence.
+        * intros D. rewrite D in *. discriminate.
+      + apply all_upd.
+        * intros k x Nk Hk. apply WK. exact Hk.
+        * intros _. apply wk_ok_out; auto.
+      + intros i. specialize (O i). unfold occ in *. proj.
+        pose proof (socc_upd ws (recvd mod W) wk (Wk (w_fun wk) (w_st wk) (w_in wk) q) i Hw) as S1.
+        pose proof (wocc_take wk q recvd i B4) as S2.
+        pose proof (stored_static_S slots recvd i LB) as S3. lia.
+      + pose proof (wload_upd ws (recvd mod W) wk (Wk (w_fun wk) (w_st wk) (w_in wk) q) Hw) as S1.
+        pose proof (wlen_take wk q B3) as S2. lia.
+  Qed.
+
+  Lemma inv_ret : forall st st', Inv st -> step st EMRet = Some st' -> Inv st'.
+  Proof.
+    intros [[bc sent recvd acc slots pend done] ws] st' I H. unfold MPI.step in H. proj.
+    match type of H with (if ?c then _ else _) = _ => destruct c eqn:C; [|discriminate] end.
+    apply andb_prop in C. destruct C as [C HB]. bools. injection H as <-.
+    destruct pend; [discriminate|]. subst bc recvd.
+    destruct I as [L M WK O Ld]. proj.
+    constructor; proj; auto.
+    destruct M as [M1 M2 M3 M4 M5 M6]; proj. constructor; proj; auto.
+    intros _. repeat split; auto. lia.
+  Qed.
+
+  Theorem step_inv : forall st e st', Inv st -> step st e = Some st' -> Inv st'.
+  Proof.
+    intros st e st' I H. destruct e.
+    - eapply inv_sendfun; eauto.
+    - eapply inv_send; eauto.
+    - eapply inv_recv; eauto.
+    - eapply inv_ret; eauto.
+    - eapply inv_wrecv; eauto.
+    - eapply inv_wsend; eauto.
+  Qed.
+
+  Lemma run_inv : forall evs st st', Inv st -> run_schedule fn cfg st evs = Some st' -> Inv st'.
+  Proof.
+    induction evs as [|e evs IH]; intros st st' I H; simpl in H.
+    - injection H as <-. exact I.
+    - destruct (MPI.step fn cfg st e) as [st1|] eqn:S1; [|discriminate].
+      eapply IH; [eapply step_inv; eauto|exact H].
+  Qed.
+
+  (* ---- what the invariant says once map has returned ------------------------------- *)
+  Lemma wload_zero_wtok : forall ws w wk, wload ws = 0 -> nth_error ws w = Some wk -> wtok wk = [].
+  Proof.
+    intros ws w wk H Hw. pose proof (wsum_ge _ (fun wk => length (wtok wk)) ws w wk Hw) as G.
+    unfold wload in H. cbv beta in G. apply length_zero_iff_nil. lia.
+  Qed.
+
+  Theorem inv_final : forall st, Inv st -> m_done (st_m st) = true ->
+    result cfg st = map Some (map (fn g) tasks) /\ forall wk, In wk (st_w st) -> idle g wk.
+  Proof.
+    intros [[bc sent recvd acc slots pend done] ws] I D. proj. subst done.
+    destruct I as [L M WK O Ld]. proj. destruct M as [M1 M2 M3 M4 M5 M6]. proj.
+    destruct (M6 eq_refl) as (E1 & E2 & E3 & E4).
+    assert (WL : wload ws = 0) by lia. clear Ld. subst bc sent recvd pend.
+    assert (S0 : forall i, socc i ws = 0).
+    { intros i. unfold socc. apply wsum_zero_all. intros wk Hk.
+      destruct (In_nth_error _ _ Hk) as [w Hw]. unfold wocc. rewrite (wload_zero_wtok ws w wk WL Hw). reflexivity. }
+    split.
+    - unfold result. proj. destruct lb eqn:LB.
+      + destruct (M5 eq_refl) as (A1 & A2 & _). apply nth_error_ext. intros i.
+        destruct (Nat.lt_ge_cases i n) as [Hi|Hi].
+        * pose proof (O i) as Oi. unfold occ in Oi. proj. rewrite S0 in Oi.
+          unfold undisp, stored in Oi. rewrite LB in Oi.
+          destruct (Nat.leb_spec n i); [lia|]. destruct (Nat.ltb_spec i n); [|lia]. simpl in Oi.
+          destruct (nth_error slots i) as [[r|]|] eqn:Es; try discriminate.
+          destruct (A2 i r Es) as (t & Ht & ->).
+          symmetry. apply map_nth_error. apply map_nth_error. exact Ht.
+        * assert (N1 : nth_error slots i = None) by (apply nth_error_None; lia).
+          assert (N2 : nth_error (map Some (map (fn g) tasks)) i = None)
+            by (apply nth_error_None; rewrite !map_length; lia).
+          congruence.
+      + destruct (M4 eq_refl) as (_ & _ & A3). rewrite A3, firstn_all. reflexivity.
+    - intros wk Hk. destruct (In_nth_error _ _ Hk) as [w Hw].
+      pose proof (wload_zero_wtok ws w wk WL Hw) as TK. unfold wtok in TK.
+      apply app_eq_nil in TK. destruct TK as [T1 TK]. apply app_eq_nil in TK. destruct TK as [T2 T3].
+      pose proof (WK w wk Hw) as OK. constructor.
+      + destruct (w_st wk); [reflexivity|discriminate].
+      + apply map_eq_nil in T3. exact T3.
+      + apply tags_no_task. exact T1.
+      + apply (ok_eff _ _ _ OK). rewrite <- L. eapply nth_error_lt; eauto.
+  Qed.
+
+  Lemma fresh_idle : forall k wk, In wk (@fresh_workers T R k) -> idle 0 wk.
+  Proof.
+    intros k wk H. apply repeat_spec in H. subst wk. constructor; simpl; auto. intros tag t [].
+  Qed.
+
+  (* ---- termination measure: every step strictly decreases it ---------------------- *)
+  Definition msg_w (m : wmsg T) : nat := match m with MFun _ => 1 | MTask _ _ => 4 end.
+  Definition mu_w (wk : worker) : nat :=
+    list_sum (map msg_w (w_in wk)) + (match w_st wk with WRun _ _ => 3 | WWait => 0 end) + 2 * length (w_out wk).
+  Definition mu_m (m : master) : nat :=
+    2 * (W - m_bc m) + 5 * (n - m_sent m) + (match m_pend m with Some _ => 1 | None => 0 end) +
+    (if m_done m then 0 else 1).
+  Definition mu (st : state) : nat := mu_m (st_m st) + wsum mu_w (st_w st).
+
+  Lemma mu_w_push : forall wk m, mu_w (w_push wk m) = mu_w wk + msg_w m.
+  Proof.
+    intros. unfold mu_w, w_push. proj. rewrite map_app, list_sum_app. simpl. lia.
+  Qed.
+
+  Theorem step_mu : forall st e st', step st e = Some st' -> mu st' < mu st.
+  Proof.
+    intros [[bc sent recvd acc slots pend done] ws] e st' H. unfold MPI.step in H. proj.
+    destruct e as [d|d tag|src tag| |w k|w tag].
+    - destruct (negb done && (bc <? W) && (d =? bc)) eqn:C; [|discriminate]. bools. subst d done.
+      unfold push_in in H. destruct (nth_error ws bc) as [wk|] eqn:Hw; [|discriminate]. injection H as <-.
+      pose proof (wsum_upd _ mu_w ws bc wk (w_push wk (MFun g)) Hw) as S1. rewrite mu_w_push in S1.
+      unfold mu, mu_m. proj. unfold w_push in S1. simpl msg_w in S1. lia.
+    - match type of H with (if ?c then _ else _) = _ => destruct c eqn:C; [|discriminate] end.
+      apply andb_prop in C. destruct C as [C HB]. bools. subst tag bc done.
+      destruct (nth_error tasks sent) as [t|] eqn:Ht; [|discriminate].
+      unfold push_in in H. destruct (nth_error ws d) as [wk|] eqn:Hw; [|discriminate]. injection H as <-.
+      pose proof (wsum_upd _ mu_w ws d wk (w_push wk (MTask sent t)) Hw) as S1. rewrite mu_w_push in S1.
+      unfold mu, mu_m. proj. unfold w_push in S1. simpl msg_w in S1. destruct pend; lia.
+    - destruct (negb done && (bc =? W) && (recvd <? n)) eqn:C; [|discriminate]. bools. subst bc done.
+      destruct (nth_error ws src) as [wk|] eqn:Hw; [|discriminate].
+      destruct lb.
+      + destruct ((W <=? sent) && is_none pend) eqn:C2; [|discriminate]. bools.
+        destruct pend as [p|]; [discriminate|].
+        destruct (w_out wk) as [|[tg r] q] eqn:Ho; [discriminate|].
+        destruct ((tg =? tag) && (tag <? length slots)) eqn:C3; [|discriminate]. injection H as <-.
+        pose proof (wsum_upd _ mu_w ws src wk (Wk (w_fun wk) (w_st wk) (w_in wk) q) Hw) as S1.
+        unfold mu, mu_m. proj.
+        set (sa := wsum mu_w (upd _ _ _)) in *. set (sb := wsum mu_w ws) in *.
+        unfold mu_w in S1. proj. rewrite Ho in S1. simpl length in S1.
+        destruct (sent <? n); lia.
+      + destruct ((sent =? n) && (tag =? recvd) && (src =? recvd mod W)) eqn:C2; [|discriminate].
+        destruct (take_tag tag (w_out wk)) as [[r q]|] eqn:TT; [|discriminate]. injection H as <-.
+        destruct (take_tag_spec _ _ _ _ TT) as (_ & _ & B3 & _).
+        pose proof (wsum_upd _ mu_w ws src wk (Wk (w_fun wk) (w_st wk) (w_in wk) q) Hw) as S1.
+        unfold mu, mu_m. proj.
+        set (sa := wsum mu_w (upd _ _ _)) in *. set (sb := wsum mu_w ws) in *.
+        unfold mu_w in S1. proj. rewrite B3 in S1. lia.
+    - match type of H with (if ?c then _ else _) = _ => destruct c eqn:C; [|discriminate] end.
+      apply andb_prop in C. destruct C as [C HB]. bools. subst done. injection H as <-.
+      unfold mu, mu_m. proj. lia.
+    - destruct (nth_error ws w) as [wk|] eqn:Hw; [|discriminate].
+      destruct (w_st wk) as [|rtag rt] eqn:Hs; destruct (w_in wk) as [|[g'|tag t] q] eqn:Hi; destruct k as [tag'|];
+        try discriminate.
+      + injection H as <-.
+        pose proof (wsum_upd _ mu_w ws w wk (Wk g' WWait q (w_out wk)) Hw) as S1.
+        unfold mu. proj.
+        set (sa := wsum mu_w (upd _ _ _)) in *. set (sb := wsum mu_w ws) in *.
+        unfold mu_w in S1. proj. rewrite Hs, Hi in S1. simpl in S1. lia.
+      + destruct (tag =? tag'); [|discriminate]. injection H as <-.
+        pose proof (wsum_upd _ mu_w ws w wk (Wk (w_fun wk) (WRun tag t) q (w_out wk)) Hw) as S1.
+        unfold mu. proj.
+        set (sa := wsum mu_w (upd _ _ _)) in *. set (sb := wsum mu_w ws) in *.
+        unfold mu_w in S1. proj. rewrite Hs, Hi in S1. simpl in S1. lia.
+    - destruct (nth_error ws w) as [wk|] eqn:Hw; [|discriminate].
+      destruct (w_st wk) as [|tg t] eqn:Hs; [discriminate|].
+      destruct (tg =? tag); [|discriminate]. injection H as <-.
+      pose proof (wsum_upd _ mu_w ws w wk (Wk (w_fun wk) WWait (w_in wk) (w_out wk ++ [(tg, fn (w_fun wk) t)])) Hw) as S1.
+      unfold mu. proj.
+        set (sa := wsum mu_w (upd _ _ _)) in *. set (sb := wsum mu_w ws) in *.
+      unfold mu_w in S1. proj. rewrite Hs, app_length in S1. simpl in S1. lia.
+  Qed.
+
+  (* no schedule is longer than the measure of the entry state *)
+  Theorem run_bounded : forall evs st st', run_schedule fn cfg st evs = Some st' -> length evs + mu st' <= mu st.
+  Proof.
+    induction evs as [|e evs IH]; intros st st' H; simpl in H.
+    - injection H as <-. simpl. lia.
+    - destruct (MPI.step fn cfg st e) as [st1|] eqn:S1; [|discriminate].
+      pose proof (step_mu _ _ _ S1). pose proof (IH _ _ H). simpl. lia.
+  Qed.
+
+  (* ---- progress: a state in which map has not returned is never stuck ------------- *)
+  Lemma worker_can_move : forall m ws w wk, nth_error ws w = Some wk ->
+    (exists e st', step (St m ws) e = Some st') \/ (w_st wk = WWait /\ w_in wk = []).
+  Proof.
+    intros m ws w wk Hw. destruct (w_st wk) as [|tg t] eqn:Hs.
+    - destruct (w_in wk) as [|[g'|tag t] q] eqn:Hi.
+      + right. auto.
+      + left. exists (EWRecv w None). unfold MPI.step. proj. rewrite Hw, Hs, Hi. eauto.
+      + left. exists (EWRecv w (Some tag)). unfold MPI.step. proj. rewrite Hw, Hs, Hi, Nat.eqb_refl. eauto.
+    - left. exists (EWSend w tg). unfold MPI.step. proj. rewrite Hw, Hs, Nat.eqb_refl. eauto.
+  Qed.
+
+  Theorem progress : forall st, Inv st -> m_done (st_m st) = false -> exists e st', step st e = Some st'.
+  Proof.
+    intros [[bc sent recvd acc slots pend done] ws] I D. proj. subst done.
+    destruct I as [L M WK O Ld]. proj. destruct M as [M1 M2 M3 M4 M5 M6]. proj.
+    destruct (Nat.lt_ge_cases bc W) as [Hb|Hb].
+    - destruct (nth_error_ex _ ws bc ltac:(lia)) as [wk Hw].
+      exists (EMSendFun bc). unfold MPI.step, push_in. proj.
+      rewrite (proj2 (Nat.ltb_lt _ _) Hb), Nat.eqb_refl, Hw. simpl. eauto.
+    - assert (bc = W) by lia. subst bc. clear M1 Hb M2.
+      assert (Hrn : recvd <= n) by lia.
+      destruct lb eqn:LB.
+      + (* load-balanced branch *)
+        destruct (M5 eq_refl) as (A1 & A2 & A3 & A4 & A5).
+        assert (Wn : W < n).
+        { unfold use_lb in LB. apply andb_prop in LB. destruct LB as [_ LB]. apply Nat.ltb_lt in LB. exact LB. }
+        destruct pend as [p|].
+        * destruct (A4 p eq_refl) as (B1 & B2 & B3 & B4).
+          destruct (nth_error_ex _ tasks sent B2) as [t Ht].
+          destruct (nth_error_ex _ ws p ltac:(lia)) as [wk Hw].
+          exists (EMSend p sent). unfold MPI.step, push_in. proj.
+          rewrite !Nat.eqb_refl, (proj2 (Nat.ltb_lt _ _) B2), LB, Ht, Hw. simpl. eauto.
+        * destruct (Nat.lt_ge_cases sent W) as [Hs|Hs].
+          -- destruct (nth_error_ex _ tasks sent ltac:(lia)) as [t Ht].
+             destruct (nth_error_ex _ ws sent ltac:(lia)) as [wk Hw].
+             exists (EMSend sent sent). unfold MPI.step, push_in. proj.
+             rewrite !Nat.eqb_refl, (proj2 (Nat.ltb_lt sent n) ltac:(lia)), LB,
+               (proj2 (Nat.ltb_lt _ _) Hs), Ht, Hw. simpl. eauto.
+          -- destruct (Nat.eq_dec recvd n) as [E|E].
+             ++ exists EMRet. unfold MPI.step. proj.
+                rewrite !Nat.eqb_refl, (proj2 (Nat.eqb_eq _ _) E), LB, (proj2 (Nat.leb_le _ _) Hs). simpl. eauto.
+             ++ assert (LP : 0 < wload ws).
+                { destruct (Nat.lt_ge_cases sent n) as [Q|Q]; [pose proof (A5 eq_refl Hs Q)|]; lia. }
+                destruct (wsum_pos _ _ ws LP) as (w & wk & Hw & Hpos).
+                destruct (worker_can_move (Ms W sent recvd acc slots None false) ws w wk Hw) as [MV|[Hs' Hi]];
+                  [exact MV|].
+                unfold wtok in Hpos. rewrite Hs', Hi in Hpos. simpl in Hpos. rewrite map_length in Hpos.
+                destruct (w_out wk) as [|[tg r] q] eqn:Ho; [simpl in Hpos; lia|].
+                destruct (ok_out _ _ _ (WK w wk Hw) tg r ltac:(rewrite Ho; left; reflexivity)) as [(t & Ht & _) _].
+                assert (Htg : tg < n) by (eapply nth_error_lt; eauto).
+                exists (EMRecv w tg). unfold MPI.step. proj.
+                rewrite !Nat.eqb_refl, (proj2 (Nat.ltb_lt recvd n) ltac:(lia)), Hw, LB,
+                  (proj2 (Nat.leb_le _ _) Hs), Ho, A1, (proj2 (Nat.ltb_lt _ _) Htg), ?Nat.eqb_refl. simpl. eauto.
+      + (* static branch *)
+        destruct (M4 eq_refl) as (A1 & A2 & A3). subst pend.
+        destruct (Nat.lt_ge_cases sent n) as [Hs|Hs].
+        * destruct (nth_error_ex _ tasks sent Hs) as [t Ht].
+          assert (Hm : sent mod W < W) by (apply Nat.mod_upper_bound; lia).
+          destruct (nth_error_ex _ ws (sent mod W) ltac:(lia)) as [wk Hw].
+          exists (EMSend (sent mod W) sent). unfold MPI.step, push_in. proj.
+          rewrite !Nat.eqb_refl, (proj2 (Nat.ltb_lt _ _) Hs), LB, Ht, Hw. simpl. eauto.
+        * assert (sent = n) by lia. revert Ld. subst sent. intros Ld.
+          destruct (Nat.eq_dec recvd n) as [E|E].
+          -- exists EMRet. unfold MPI.step. proj.
+             rewrite !Nat.eqb_refl, (proj2 (Nat.eqb_eq _ _) E), LB. simpl. eauto.
+          -- pose proof (O recvd) as Or. unfold occ in Or. proj. unfold undisp, stored in Or. rewrite LB in Or.
+             destruct (Nat.leb_spec n recvd); [lia|]. destruct (Nat.ltb_spec recvd n); [|lia].
+             destruct (Nat.ltb_spec recvd recvd); [lia|]. simpl in Or.
+             assert (SP : 0 < wsum (wocc recvd) ws) by (unfold socc in Or; lia).
+             destruct (wsum_pos _ _ ws SP) as (w & wk & Hw & Hpos).
+             destruct (worker_can_move (Ms W n recvd acc slots None false) ws w wk Hw) as [MV|[Hs' Hi]];
+               [exact MV|].
+             apply cnt_pos_In in Hpos. unfold wtok in Hpos. rewrite Hs', Hi in Hpos. simpl in Hpos.
+             apply in_map_iff in Hpos. destruct Hpos as ([tg r] & Etg & Hin). simpl in Etg. subst tg.
+             destruct (ok_out _ _ _ (WK w wk Hw) recvd r Hin) as [_ TK].
+             specialize (TK LB). subst w.
+             destruct (take_tag_some recvd (w_out wk) r Hin) as (r' & q & TT).
+             exists (EMRecv (recvd mod W) recvd). unfold MPI.step. proj.
+             rewrite !Nat.eqb_refl, (proj2 (Nat.ltb_lt recvd n) ltac:(lia)), Hw, LB, TT. simpl. eauto.
+  Qed.
+
+  (* from every reachable state some schedule leads to map having returned, and
+     (run_bounded) no schedule at all is longer than mu: every maximal run is
+     finite and ends with map returned *)
+  Theorem completes : forall k st, mu st <= k -> Inv st ->
+    exists evs st', run_schedule fn cfg st evs = Some st' /\ m_done (st_m st') = true.
+  Proof.
+    induction k as [|k IH]; intros st Hk I.
+    - destruct (m_done (st_m st)) eqn:D; [exists [], st; auto|].
+      destruct (progress st I D) as (e & st1 & S1). pose proof (step_mu _ _ _ S1). lia.
+    - destruct (m_done (st_m st)) eqn:D; [exists [], st; auto|].
+      destruct (progress st I D) as (e & st1 & S1). pose proof (step_mu _ _ _ S1) as Lt.
+      destruct (IH st1 ltac:(lia) (step_inv _ _ _ I S1)) as (evs & st' & R1 & R2).
+      exists (e :: evs), st'. simpl. rewrite S1. auto.
+  Qed.
 End MPIProofs.
+
+(* ------------------------------------------------------------------------- *)
+(* closed statements                                                           *)
+(* ------------------------------------------------------------------------- *)
+Section Statements.
+  Variables (T R : Type).
+  Variable fn : nat -> T -> R.
+
+  (* a pool between two map calls: every worker blocked in recv, nothing in
+     flight except function wrappers, and the function each worker will have
+     when it reaches its next task is the master's self.function (mf) *)
+  Definition pool_idle (W mf : nat) (ws : list (worker T R)) : Prop :=
+    length ws = W /\ forall wk, In wk ws -> idle T R mf wk.
+
+  Lemma fresh_pool_idle : forall W, pool_idle W 0 (fresh_workers W).
+  Proof.
+    intros W. split; [apply repeat_length|]. intros wk H. eapply fresh_idle; eauto.
+  Qed.
+
+  Definition reachable (cfg : config T) (mf : nat) (ws : list (worker T R)) (st : state T R) : Prop :=
+    exists evs, run_schedule fn cfg (init cfg mf ws) evs = Some st.
+
+  Lemma reachable_inv : forall cfg mf ws st, 0 < c_W cfg -> pool_idle (c_W cfg) mf ws ->
+    reachable cfg mf ws st -> Inv T R fn cfg st.
+  Proof.
+    intros cfg mf ws st HW [L I] [evs H].
+    apply (run_inv T R fn cfg HW evs (init cfg mf ws) st); [apply inv_init; assumption|exact H].
+  Qed.
+
+  (* SAFETY.  Inv (whose clause inv_occ says: each task index is in exactly one
+     of the five places) holds on entry, is preserved by every step, hence holds
+     in every reachable state; when map has returned, for ALL schedules, the
+     returned list is map f tasks and the pool is idle again with self.function
+     = this batch's function (so the next batch starts from the same kind of state). *)
+  Theorem mpi_safety_full : forall cfg mf ws, 0 < c_W cfg -> pool_idle (c_W cfg) mf ws ->
+    Inv T R fn cfg (init cfg mf ws) /\
+    (forall st e st', Inv T R fn cfg st -> step fn cfg st e = Some st' -> Inv T R fn cfg st') /\
+    (forall st, reachable cfg mf ws st ->
+       (forall i, occ T R cfg st i = if i <? length (c_tasks cfg) then 1 else 0) /\
+       (m_done (st_m st) = true ->
+          result cfg st = map Some (map (fn (c_g cfg)) (c_tasks cfg)) /\
+          pool_idle (c_W cfg) (c_g cfg) (st_w st))).
+  Proof.
+    intros cfg mf ws HW PI. split; [destruct PI; apply inv_init; assumption|].
+    split; [intros st e st'; apply step_inv; exact HW|].
+    intros st Hr. pose proof (reachable_inv cfg mf ws st HW PI Hr) as I.
+    split; [apply (inv_occ _ _ _ _ _ I)|].
+    intros D. destruct (inv_final T R fn cfg HW st I D) as [A B].
+    split; [exact A|]. split; [apply (inv_len _ _ _ _ _ I)|exact B].
+  Qed.
+
+  (* PROGRESS.  A reachable state in which map has not returned is never stuck;
+     every step strictly decreases the measure mu, so no schedule is longer than
+     mu of the entry state and every maximal schedule ends with map returned. *)
+  Theorem mpi_progress_full : forall cfg mf ws st, 0 < c_W cfg -> pool_idle (c_W cfg) mf ws ->
+    reachable cfg mf ws st ->
+    (m_done (st_m st) = false -> exists e st', step fn cfg st e = Some st') /\
+    (forall e st', step fn cfg st e = Some st' -> mu T R cfg st' < mu T R cfg st) /\
+    (exists evs st', run_schedule fn cfg st evs = Some st' /\ m_done (st_m st') = true).
+  Proof.
+    intros cfg mf ws st HW PI Hr. pose proof (reachable_inv cfg mf ws st HW PI Hr) as I.
+    split; [intros D; apply (progress T R fn cfg HW st I D)|].
+    split; [intros e st'; apply step_mu; exact HW|].
+    apply (completes T R fn cfg HW (mu T R cfg st)); [lia|exact I].
+  Qed.
+
+  Theorem mpi_schedules_bounded : forall cfg mf ws evs st, 0 < c_W cfg ->
+    run_schedule fn cfg (init cfg mf ws) evs = Some st -> length evs <= mu T R cfg (init cfg mf ws).
+  Proof. intros cfg mf ws evs st HW H. pose proof (run_bounded T R fn cfg HW evs _ _ H). lia. Qed.
+
+  (* consecutive batches on one pool *)
+  Theorem mpi_session_safety : forall W lbflag bs mf ws rs, 0 < W -> pool_idle W mf ws ->
+    run_session fn W lbflag mf ws bs = Some rs ->
+    rs = map (fun b => map Some (map (fn (fst (fst b))) (snd (fst b)))) bs.
+  Proof.
+    intros W lbflag. induction bs as [|[[gb tb] eb] bs IH]; intros mf ws rs HW PI H; simpl in H.
+    - injection H as <-. reflexivity.
+    - unfold accepts_run in H.
+      destruct (run_schedule fn (Cfg W gb tb lbflag) (init (Cfg W gb tb lbflag) mf ws) eb) as [st|] eqn:RS;
+        [|discriminate].
+      destruct (m_done (st_m st)) eqn:D; [|discriminate].
+      destruct (mpi_safety_full (Cfg W gb tb lbflag) mf ws HW PI) as (_ & _ & F).
+      destruct (F st (ex_intro _ eb RS)) as [_ F2]. destruct (F2 D) as [A B]. simpl in A, B.
+      destruct (run_session fn W lbflag gb (st_w st) bs) as [rs'|] eqn:RS2; [|discriminate].
+      injection H as <-. simpl. rewrite A. f_equal. apply (IH gb (st_w st)); assumption.
+  Qed.
+End Statements.
+
+(* non-vacuity: 2 workers, 3 tasks, both branches, on a fresh pool; in the
+   load-balanced run worker 1 answers twice before worker 0 answers at all, so the
+   results ARRIVE in the order 1,2,0 and are still returned in task order *)
+Definition ex_fn (gnum : nat) (t : nat) : nat := gnum * 1000 + t.
+Definition ex_static : list ev :=
+  [EMSendFun 0; EMSendFun 1; EMSend 0 0; EMSend 1 1; EMSend 0 2; EWRecv 1 None; EWRecv 1 (Some 1); EWSend 1 1;
+   EWRecv 0 None; EWRecv 0 (Some 0); EWSend 0 0; EWRecv 0 (Some 2); EWSend 0 2;
+   EMRecv 0 0; EMRecv 1 1; EMRecv 0 2; EMRet].
+Definition ex_lb : list ev :=
+  [EMSendFun 0; EMSendFun 1; EMSend 0 0; EMSend 1 1; EWRecv 1 None; EWRecv 1 (Some 1); EWSend 1 1;
+   EMRecv 1 1; EMSend 1 2; EWRecv 1 (Some 2); EWSend 1 2; EMRecv 1 2;
+   EWRecv 0 None; EWRecv 0 (Some 0); EWSend 0 0; EMRecv 0 0; EMRet].
+Example mpi_ex :
+  option_map fst (accepts_run ex_fn (Cfg 2 1 [10;20;30] false) 0 (fresh_workers 2) ex_static)
+    = Some [Some 1010; Some 1020; Some 1030] /\
+  option_map fst (accepts_run ex_fn (Cfg 2 1 [10;20;30] true) 0 (fresh_workers 2) ex_lb)
+    = Some [Some 1010; Some 1020; Some 1030] /\
+  run_session ex_fn 2 true 0 (fresh_workers 2) [(1, [10;20;30], ex_lb); (1, [], [EMRet]); (2, [7], [EMSendFun 0; EMSendFun 1; EMSend 0 0; EWRecv 0 None; EWRecv 0 (Some 0); EWSend 0 0; EMRecv 0 0; EMRet])]
+    = Some [[Some 1010; Some 1020; Some 1030]; []; [Some 2007]].
+Proof. repeat split. Qed.
+(* a state with the master blocked and nothing stored yet still has enabled events *)
+Example mpi_enabled_ex :
+  enabled ex_fn (Cfg 2 1 [10;20;30] true)
+    (match run_schedule ex_fn (Cfg 2 1 [10;20;30] true) (init (Cfg 2 1 [10;20;30] true) 0 (fresh_workers 2))
+             [EMSendFun 0; EMSendFun 1; EMSend 0 0; EMSend 1 1]
+     with Some st => st | None => init (Cfg 2 1 [10;20;30] true) 0 (fresh_workers 2) end)
+  = [EWRecv 0 None; EWRecv 1 None].
+Proof. reflexivity. Qed.
